@@ -78,6 +78,10 @@ def main() -> None:
                 expected = create_machine(cfg, logic=machine.logic)
                 evs = fe.events_of(cfg)
                 trace = []
+                from harness import vthreads
+                vctl = vthreads.Controller()          # `after` timers never fire: nothing here depends on real time
+                patch = vthreads.patched(vctl)
+                patch.__enter__()
                 for m in (machine, expected):
                     it = SyncInterpreter(m)
                     seq = []
@@ -96,6 +100,8 @@ def main() -> None:
                         except BaseException:  # noqa: BLE001
                             pass
                     trace.append(seq)
+                vctl.drain()
+                patch.__exit__(None, None, None)
                 res["trace"] = trace[0] == trace[1]
                 if not res["trace"]:
                     res["errors"].append(f"trace: generated {trace[0][:6]} expected {trace[1][:6]}")
